@@ -110,10 +110,6 @@ Big == 262144
 Ctorable(c, a) ==
     /\ Cmd[c].phase.k # "out_list"
     /\ \A nm \in Coupled(c) : Small(a[nm])
-    /\ (NeedsBs(c) => Len(Strip(a["blocksize"])) <= 2)
-    /\ (NeedsBs(c) /\ Cmd[c].phase.k # "out_block" =>
-            Len(Strip(a["blocksize"])) + Len(Strip(a[Cmd[c].phase.arg])) <= 3)
-    /\ (Cmd[c].phase.k = "ata" => Len(Strip(AtaUnits(a))) <= 1)
     /\ (Cmd[c].phase.k = "readcd" => NatClamp(a["tl"]) <= 64)
     /\ DinLen(c, a) < Big /\ DoutLen(c, a) < 65536
 
